@@ -538,6 +538,37 @@ func scenarioC16(r *Run) {
 		}
 	}
 	r.Count("reconnect_ok")
+
+	// ---- the new session is kept: one to three minutes later (nothing is cut meanwhile) further local
+	// connections are served over it, without another physical connection
+	if !c.Chance(1, 2, "later-connections") {
+		return
+	}
+	for _, lc := range conns2 {
+		lc.App.Do(Op{Kind: "close"})
+	}
+	r.RunFor(time.Duration(40+c.Pick(140, "later-s")) * time.Second)
+	before = dials(now)
+	conns3 := mk(k+len(conns2), 1+c.Pick(2, "later-connections-n"))
+	cs3 := NewConnSet(r, w, "app", conns3)
+	cs3.Cross = true
+	cs3.KeySpan = 16
+	extra3 := func() []Ev { return append(cs3.OpenEv(nil), cs3.PeerEvents()...) }
+	out = r.Drive(pol, settled(cs3, conns3, expect2), extra3, allow+30*time.Second, allow+10*time.Minute)
+	if out == Aborted {
+		return
+	}
+	for i, lc := range conns3 {
+		if !cs3.Complete(lc, false) {
+			r.FailSig("no-reconnect", sig2+" later", "%s: a while after the session had been re-established (nothing cut since), local connection %d was not served: %v", out, i, cs3.Describe())
+			return
+		}
+	}
+	if !isUDPKind(now.Kind) && dials(now) != before {
+		r.FailSig("session-not-kept", sig2, "the session re-established after %s did not last: %d further physical connection(s) to the selected upstream although nothing was cut", loss, dials(now)-before)
+		return
+	}
+	r.Count("session_kept_after_reconnect")
 }
 
 func failingBefore(entries []*c16entry, firstOK int) string {
